@@ -201,6 +201,15 @@ func wrCopy3(a data.ND3Float64) data.ND3Float64 {
 // data-dependent increment loops; Storage: adaptive sub-stepping; ClimateVariables: 40-step
 // bisection over log/exp).  Their wrappers are instances of the same template as the other 38
 // and are NOT exercised with their own kernel (stated in DESIGN §5).
+// wrHeavyNoSummary: for harnesses whose property depends on WHAT the kernel computes from which
+// timestep (causality, hot start): the two heavy kernels are skipped, not summarised.
+func wrHeavyNoSummary(name string) bool {
+	if name == "Sacramento" || name == "Storage" {
+		return true
+	}
+	return wrHeavy(name)
+}
+
 func wrHeavy(name string) bool {
 	if name == "ClimateVariables" {
 		// the scalar helpers of the climate kernel (40-step bisection, Goff-Gratch, Magnus) are
@@ -212,7 +221,19 @@ func wrHeavy(name string) bool {
 		vsym.Summarise("uf:calcDewPoint")
 		return false
 	}
-	return name == "Sacramento" || name == "Storage"
+	switch name {
+	case "Sacramento":
+		// nested data-dependent increment loops: the kernel is replaced by a summary that reads all
+		// its input series and scalars and writes all its 5 output series (engine/havoc.go); the
+		// wrapper - which views it hands out, where it writes states back - is what is exercised
+		vsym.Summarise("kernel:sacramento:5")
+		return false
+	case "Storage":
+		// adaptive sub-stepping: same treatment (4 output series)
+		vsym.Summarise("kernel:storageWaterBalance:4")
+		return false
+	}
+	return false
 }
 
 // per-cell initial states through the model's own initialiser on a single-cell model, padded
